@@ -33,9 +33,19 @@ Verify the demonstration both ways yourself. IMPORTANT: do NOT use `git stash` (
 - the demonstration file(s); if it is a single Abra program name it `demo.abra`
 - `README.md`: which sites you changed and why the tests still pass; what exact input/sequence is needed to see the breakage; the exact commands you ran and their outputs with and without the change.
 
-Keep the change small (a few lines is ideal). Do not edit or delete existing tests. No network is available. Leave the worktree with the change applied. When finished, reply with a short summary: files changed, how it manifests, the command that runs the demo, confirmation that the tests pass with the change and that the demo is wrong with it and right without it. If, while exploring, you notice that the property is ALREADY violated on the pristine tree by some input, mention it briefly at the end (input + observed behaviour).
+{avoid}Keep the change small (a few lines is ideal). Do not edit or delete existing tests. No network is available. Leave the worktree with the change applied. When finished, reply with a short summary: files changed, how it manifests, the command that runs the demo, confirmation that the tests pass with the change and that the demo is wrong with it and right without it. If, while exploring, you notice that the property is ALREADY violated on the pristine tree by some input, mention it briefly at the end (input + observed behaviour).
 '''
-for pid in sys.argv[1:]:
-    p=props[pid]; wt=f'/tmp/wt-{pid}'
-    open(f'{wt}/TASK.md','w').write(T.format(wt=wt,pid=pid,title=p['title'],statement=p['statement'],quant=p['quantifier']['text'],files=', '.join(p['anchors']['files'])))
+import glob, os
+# usage: mk_task.py [--round N] Cnn...   (round >= 2: worktrees are /tmp/wt<N>-Cnn and the brief lists sites already used by earlier exercises)
+args = sys.argv[1:]
+rnd = 1
+if args and args[0] == '--round':
+    rnd = int(args[1]); args = args[2:]
+used = sorted(os.path.basename(d.rstrip('/')).split('-', 1)[1].replace('-', ' ') for d in glob.glob('/verif/seeded/*/'))
+avoid = ''
+if rnd > 1:
+    avoid = ('Earlier exercises of this kind already used the following ideas (each is a few words naming the site and the slip). Do NOT repeat any of them or a close variant; pick a different site, ideally a different file or a different mechanism, and a different flavour of slip:\n\n' + '\n'.join('  - ' + u for u in used) + '\n\n')
+for pid in args:
+    p=props[pid]; wt=f'/tmp/wt-{pid}' if rnd == 1 else f'/tmp/wt{rnd}-{pid}'
+    open(f'{wt}/TASK.md','w').write(T.format(wt=wt,pid=pid,title=p['title'],statement=p['statement'],quant=p['quantifier']['text'],files=', '.join(p['anchors']['files']),avoid=avoid))
     print('wrote',f'{wt}/TASK.md')
